@@ -207,6 +207,18 @@ func runThorough(prop, repo string, base *Ctx) (extra map[string]any, fails []st
 						hit = true
 					}
 				}
+				// a sentinel shared between properties names the rule of its home property; for the
+				// other properties any new violation counts (their own rules must notice the change)
+				expectServes := false
+				for _, rl := range rulesFor(prop) {
+					if rl.ID == r.m.Expect {
+						expectServes = true
+					}
+				}
+				if !expectServes && len(fresh) > 0 {
+					hit = true
+					row["note"] = "expected rule belongs to another property; detected by this property's own rules"
+				}
 				if hit {
 					nSentOK++
 					row["result"] = "detected"
